@@ -165,6 +165,8 @@ def plan(tier, seed):
     shards = [('names', k, optmode) for k in range(NSHARDS)]
     shards += [('soup', L, k, optmode) for k in range(NSHARDS)]
     shards += [('docs', ndocs // NSHARDS, seed * 1000 + k, optmode) for k in range(NSHARDS)]
+    if tier != 'quick':
+        shards += [('fuzz', FUZZ_RUNS, seed * 100 + k + 1) for k in range(NSHARDS)]
     macros, envs = names()
     return {'shards': shards,
             'bounds': {'macro_names': len(macros), 'environment_names': len(envs),
@@ -200,8 +202,19 @@ def optsets(mode):
     return pairwise_opts() if mode == 'pairwise' else ALL_OPTS
 
 
+FUZZ_RUNS = 30000
+
+
+def fuzz_case(s, i):
+    return {'kind': 'src', 'src': s, 'opts': ALL_OPTS[i % len(ALL_OPTS)]}
+
+
 def run_shard(shard, res):
     kind = shard[0]
+    if kind == 'fuzz':
+        from .. import fuzz
+        fuzz.campaign(ID, shard[1], shard[2], res)
+        return
     if kind == 'names':
         _, k, optmode = shard
         opts = optsets(optmode)
@@ -251,6 +264,8 @@ def run_shard(shard, res):
 def check_case(case, res):
     src = case['src'] if case['kind'] == 'src' else ''.join(case['tokens'])
     convert(src, case['opts'], res, case)
+    if 'template' not in case and '\\' in src:
+        res.nontriv((src, repr(case['opts'])))
 
 
 def minimise(case, key):
